@@ -75,13 +75,13 @@ theorem c18_no_out_no_write (c : Ctx) (fs : FS) (ho : c.flags.outFile = []) :
       | ok text => simp [hm, loaded, eff]
 
 /-- the only references into `os`, `io/ioutil`, `os/exec`, `syscall`, `io/fs` in moq's own
-    non-test code (regenerated list): the three file-system calls of `run`, its two standard
-    streams / sentinel error, and `main`'s exit and stderr -/
+    non-test code (regenerated list, any order, any multiplicity): the three file-system calls
+    that `run` interprets – and they occur in `main.go:run` only –, the standard streams, the
+    sentinel error and `os.Exit` -/
 theorem c18_fs_calls :
-    Generated.fsCalls.map (fun x => (x.2.1, x.2.2)) =
-      [(s%"main", s%"os.Exit"), (s%"main", s%"os.Stderr"), (s%"main", s%"os.Exit"),
-       (s%"run", s%"os.Remove"), (s%"run", s%"os.ErrNotExist"), (s%"run", s%"os.Stdout"),
-       (s%"run", s%"os.MkdirAll"), (s%"run", s%"os.WriteFile")] := by
+    Generated.fsCalls.all (fun x =>
+      ([s%"os.Remove", s%"os.MkdirAll", s%"os.WriteFile"].contains x.2.2 && x.1 = s%"main.go" && x.2.1 = s%"run") ||
+      [s%"os.Exit", s%"os.Stderr", s%"os.Stdout", s%"os.ErrNotExist"].contains x.2.2) = true := by
   decide
 
 /-- non-vacuity of the side condition: for an ordinary output path the file is not one of the
